@@ -298,6 +298,12 @@ pub fn run(ctx: &Ctx) -> Outcome {
             groups.entry((c.cipher.to_string(), c.bs)).or_default().push(c);
         }
     }
+    // the very wide backends (width >= 256: beyond a u8) take part here only; their block sizes have narrow partners above
+    for c in ctx.reg.cfgs.iter().filter(|c| c.sets.contains('w') && c.is_toy()) {
+        if let Some(g) = groups.get_mut(&(c.cipher.to_string(), c.bs)) {
+            g.push(c);
+        }
+    }
     let groups: Vec<Vec<&Cfg>> = groups.into_values().filter(|g| g.len() >= 2).collect();
     let r4 = par_map(&groups, |group| {
         let mut rep = Report::new(format!("widths/bs={}", group[0].bs));
@@ -318,13 +324,23 @@ pub fn run(ctx: &Ctx) -> Outcome {
                 let fb = block_frontends(other, fam, dir);
                 for (a, b) in fa.iter().zip(&fb) {
                     for nn in [1, pmax, pmax + 1, n] {
-                        rep.case(|| {
-                            let pieces = [p(nn * a.gran, Kind::InPlace)];
-                            let oa = (a.run)(key, &iv, &data[..nn * a.gran], &pieces, &pre)?;
-                            let ob = (b.run)(key, &iv, &data[..nn * a.gran], &pieces, &pre)?;
-                            ensure!(oa.out == ob.out && oa.state == ob.state, format!("width_dependence/{}", a.name), "{} blocks through {}: parallel width {} gives {} but width {} gives {}", nn, a.name, par_of(base), short(&oa.out), par_of(other), short(&ob.out));
-                            Ok(())
-                        });
+                        // one call, and the same call followed by one more block (what the first call left behind)
+                        for extra in [0usize, 1] {
+                            if nn + extra > n {
+                                continue;
+                            }
+                            rep.case(|| {
+                                let mut pieces = vec![p(nn * a.gran, Kind::InPlace)];
+                                if extra == 1 {
+                                    pieces.push(p(a.gran, Kind::B2b));
+                                }
+                                let tot = (nn + extra) * a.gran;
+                                let oa = (a.run)(key, &iv, &data[..tot], &pieces, &pre)?;
+                                let ob = (b.run)(key, &iv, &data[..tot], &pieces, &pre)?;
+                                ensure!(oa.out == ob.out && oa.state == ob.state, format!("width_dependence/{}", a.name), "{} blocks (+{}) through {}: parallel width {} gives {} but width {} gives {}", nn, extra, a.name, par_of(base), short(&oa.out), par_of(other), short(&ob.out));
+                                Ok(())
+                            });
+                        }
                     }
                 }
             }
